@@ -332,6 +332,9 @@ class PointTier(textgrid_tier.TextgridTier):
         else:
             newPoint = entry
 
+        # As in the constructor, labels carry no surrounding whitespace
+        newPoint = Point(newPoint.time, newPoint.label.strip())
+
         matchList = []
         i = None
         for i, point in enumerate(self.entries):
